@@ -21,6 +21,9 @@ def deductive(tier="quick", seed=0):
         tasks += SS.shrink_tasks(C)
     except ImportError:
         pass
+    from contracts import tableau_ctor as TCT
+
+    tasks += TCT.tasks()  # constructors: values stored in fresh buffers (a tableau never shares storage with the arrays it was built from)
     d = run_tasks(tasks)
     d.obligations.extend(pauli_tables.obligations())
     from lemmas import sums
@@ -29,7 +32,7 @@ def deductive(tier="quick", seed=0):
     from lemmas import symplectic
 
     d.obligations.extend(symplectic.obligations())
-    can = run_tasks(TS.canary_tasks(C))
+    can = run_tasks(TS.canary_tasks(C) + TCT.canary_tasks())
     d.errors.extend(can.errors)
     d.canaries = TS.canary_summary(can)
     for c in d.canaries:
